@@ -129,10 +129,11 @@ def get_dot_dependency_graph(
 
     for stmt_1 in dep_graph:
         for stmt_2 in dep_graph.get(stmt_1, set()):
-            lines.append(f"{stmt_1} -> {stmt_2}")
+            lines.append(f'"{stmt_1}" -> "{stmt_2}"')
 
     for (stmt_1, stmt_2), annot in annotation_dep_graph.items():
-        lines.append(f'{stmt_2} -> {stmt_1}  [label="{annot}", style="dashed"]')
+        lines.append(
+            f'"{stmt_2}" -> "{stmt_1}"  [label="{annot}", style="dashed"]')
 
     lines.extend(additional_lines_hook())
 
